@@ -430,6 +430,47 @@ class ScriptGen:
                     self.ops.append(['X', dst, src]); self.mark(do, self.R)
         return self
 
+    def gen_self_alias(self):
+        """deterministic script: both operands of `*=`, `=`, construction and cast-assign are views of EXACTLY the same
+        words (`g *= g` through Map/Map, Map/const-Map, value/value), then the same with partially overlapping views
+        (for the ops that go through a temporary), each after re-initialising the operands; `+=` after each"""
+        r = self.r
+        o = self.offs[0]
+        o2 = next((x for x in self.offs if x != o and abs(x - o) < self.R), None)
+        d = self.d
+
+        def init(loc):
+            w = words_of(gdesc.element(d, r), self.prec)
+            self.ops.append(['C', loc, '-', str(len(w))] + w)
+            self.mark(self.loc_off(loc), self.R)
+
+        def plus(loc):
+            a = words_of(gdesc.tangent(d, r, 'generic'), self.prec)
+            self.ops.append(['P', loc, '-', str(len(a))] + a)
+        for dst, src in ((f'm{o}', f'c{o}'), (f'm{o}', f'm{o}'), ('v0', 'v0')):
+            init(dst)
+            self.ops.append(['ML', dst, src])       # g *= g
+            self.ops.append(['ML', dst, src])       # and again on the result
+            plus(dst)
+            self.ops.append(['A', dst, src])        # self-assignment
+            self.ops.append(['K', dst, src])        # construct from itself, assign back
+            self.ops.append(['X', dst, src])        # cast round trip onto itself
+            self.ops.append(['ML', dst, src])
+        if o2 is not None:
+            for dst, src in ((f'm{o}', f'c{o2}'), (f'm{o2}', f'm{o}'), (f'm{o}', f'm{o2}')):
+                init(f'm{o}'); init(f'm{o2}')
+                self.ops.append(['ML', dst, src])   # rhs partially overlaps the destination
+                init(f'm{o}'); init(f'm{o2}')
+                self.ops.append(['X', dst, src])
+                plus(dst)
+        # value *= map of the same words is impossible (a value owns its words); value/map mixes with equal contents:
+        init(f'm{o}')
+        self.ops.append(['A', 'v1', f'c{o}'])
+        self.mark(self.loc_off('v1'), self.R)
+        self.ops.append(['ML', 'v1', f'm{o}'])
+        self.ops.append(['ML', f'm{o}', 'v1'])
+        return self
+
     def header(self):
         return ['mem_script', self.g, self.prec, str(self.N), str(self.NV)]
 
@@ -538,6 +579,14 @@ def check_scripts(requests, stats, findings, broken, samples):
             stats['words_compared'] += size
             ws = wsets[k]
             lo, hi = (ws[0], ws[0] + ws[1]) if ws else (0, 0)
+            rel = '-'
+            if op[0] in ('A', 'K', 'ML', 'X'):
+                R_ = parse(g).rep()
+                offd = N + int(op[1][1:]) * R_ if op[1][0] == 'v' else int(op[1][1:])
+                offs_ = N + int(op[2][1:]) * R_ if op[2][0] == 'v' else int(op[2][1:])
+                rel = 'same' if offd == offs_ else ('overlap' if abs(offd - offs_) < R_ else 'disjoint')
+                rk = f'{op[0]} {op[1][0]}<-{op[2][0]} {rel}'
+                stats['operand_relation'][rk] = stats['operand_relation'].get(rk, 0) + 1
             if op[0] in ARITH:
                 arith_seen = True
             # audit independent of the model values: guard / frame words
@@ -566,7 +615,7 @@ def check_scripts(requests, stats, findings, broken, samples):
             if bad_inside or outside_bad:
                 line = step_reqs_line(g, prec, N, NV, prev, op)
                 if op[0] in ARITH and not outside_bad:
-                    broken.append({'what': 'correspondence', 'name': f'T1 mem_script {g} {prec} op {op[0]} (arithmetic result vs Lean model)',
+                    broken.append({'what': 'correspondence', 'name': f'T1 mem_script {g} {prec} op {op[0]} operands:{rel} (arithmetic result vs Lean model)',
                                    'first': {'line': line, 'impl': ' '.join(now[lo:hi]), 'model': ' '.join(mw[lo:hi])}})
                 else:
                     # a verbatim op (or a frame word) disagrees with the buffer model: the property itself is violated
@@ -703,7 +752,8 @@ class C16:
 
     def _stats(self):
         return {'scripts': 0, 'ops': 0, 'by_op': {}, 'words_compared': 0, 'worst_arith_ulp': 0.0, 'whole_scripts_bitwise': 0,
-                'value_words_checked': 0, 'casts': 0, 'cast_words': 0}
+                'value_words_checked': 0, 'casts': 0, 'cast_words': 0,
+                'self_alias_scripts': 0, 'operand_relation': {}}
 
     def explore(self, ctx):
         quick = ctx['tier'] == 'quick'
@@ -742,6 +792,12 @@ class C16:
                         reqs.append(sg.request())
                         for o in sg.ops:
                             kinds.add((g, prec, o[0], o[2] if o[0] in 'ICMP' else '-', o[1][0], o[2][0] if o[0] in ('A', 'K', 'ML', 'X') else '-'))
+        for g in CATALOGUE:
+            for prec in ('f64', 'f32'):
+                for k in range(1 if quick else 3):
+                    sg = ScriptGen(g, prec, rng, False, 0).gen_self_alias()
+                    reqs.append(sg.request())
+                    stats['self_alias_scripts'] += 1
         check_scripts(reqs, stats, findings, broken, samples)
         # ---- casts
         creqs = cast_requests(rng, (3 if quick else 20) * budget)
